@@ -470,7 +470,9 @@ class World:
                         self.cur_op = 'rebuild:' + ent['rec']['key']
                         self._differential(ent)
                 self.cur_op = saved_op
-        if how not in ('mut', 'iop') and rec['name'] not in cat.RANDOM and tag != 'raise:CallTimeout':
+        one_shot = any(hasattr(v, '__next__') for _, v in argvals)     # a consumed iterator cannot
+        if how not in ('mut', 'iop') and rec['name'] not in cat.RANDOM and tag != 'raise:CallTimeout' \
+                and not one_shot:                                      # be delivered a second time
             inputs = {'recv': recv, 'args': args, 'kwargs': kwargs}
             self.history.append({'rec': rec, 'inputs': inputs,
                                  'insnap': values.snapshot([recv, args, kwargs]),
@@ -502,7 +504,8 @@ class World:
             items = [x for x in res[:4]]
         for x in items:
             if isinstance(x, np.ndarray):
-                if x.size == 0 or x.size > HEAP_MAX_ARRAY or x.dtype.kind not in 'fiub':
+                if type(x) is not np.ndarray or x.size == 0 or x.size > HEAP_MAX_ARRAY \
+                        or x.dtype.kind not in 'fiub':
                     continue
             elif is_sm_object(x):
                 if _length(x) > 12 or _malformed(x):
@@ -847,13 +850,13 @@ def _gen_array_spec(kind, rng, cfg):
     else:
         form = rng.choice(values.MAT_FORMS)
     return {'gen': kind, 'k': rng.randrange(8) if rng.random() > cfg.get('special_rate', 0.0)
-            else 8 + rng.randrange(6), 'form': form}
+            else 8 + rng.randrange(7), 'form': form}
 
 
 def make_spec(kind, world, cfg, rng, recv_cls, recv_ref=None):
     """Build an argument spec for one kind.  May raise NeedObject."""
     if kind in values.SCALAR_KINDS:
-        s = {'lit': values.gen_scalar(kind, rng.randrange(12 if rng.random() < cfg.get('special_rate', 0.0)
+        s = {'lit': values.gen_scalar(kind, rng.randrange(16 if rng.random() < cfg.get('special_rate', 0.0)
                                                          else 8))}
         if kind in ('ang', 'sc', 'int') and rng.random() < cfg.get('sym_rate', 0.0):
             # SymPy numbers and symbols are accepted by the trigonometric builders
